@@ -18,36 +18,33 @@ import (
 	"strings"
 
 	"verifharness/core"
-
-	"github.com/evolbioinfo/gotree/io/nextstrain"
-	"github.com/evolbioinfo/gotree/io/phyloxml"
 )
 
 // ---------------------------------------------------------------------------------- PhyloXML
 
 var pxNames = []string{"a", "t1", "Homo sapiens", "x<y", "a&b", "é", "q\"uote", "a]]>b", " lead", "0.5", "c:d", "tab\there"}
 
-func genPx(g *core.G) *phyloxml.PhyloXML {
-	px := &phyloxml.PhyloXML{}
+func genPx(g *core.G) *pxD {
+	px := &pxD{}
 	np := g.Intn(3)
 	if g.Chance(0.7) {
 		np = 1
 	}
 	for i := 0; i < np; i++ {
-		ph := phyloxml.Phylogeny{Rooted: g.Chance(0.5)}
+		ph := pxP{Rooted: g.Chance(0.5)}
 		ph.Root = genPxClade(g, 0)
-		px.Phylogenies = append(px.Phylogenies, ph)
+		px.Phylos = append(px.Phylos, ph)
 	}
 	return px
 }
 
-func genPxClade(g *core.G, depth int) phyloxml.Clade {
-	c := phyloxml.Clade{}
+func genPxClade(g *core.G, depth int) *pxC {
+	c := &pxC{}
 	switch g.Intn(5) {
 	case 0:
-		c.Tax.ScientificName = g.Pick(pxNames)
+		c.Sci = g.Pick(pxNames)
 	case 1:
-		c.Tax.Code = g.Pick(pxNames)
+		c.Code = g.Pick(pxNames)
 	case 2:
 		// no name at all (an error for a tip)
 	default:
@@ -55,23 +52,23 @@ func genPxClade(g *core.G, depth int) phyloxml.Clade {
 	}
 	// several of the three names at once: the precedence is name, scientific name, code
 	if g.Chance(0.25) {
-		c.Tax.ScientificName = "sci" + g.Pick(pxNames)
+		c.Sci = "sci" + g.Pick(pxNames)
 	}
 	if g.Chance(0.2) {
-		c.Tax.Code = "code" + strconv.Itoa(g.Intn(9))
+		c.Code = "code" + strconv.Itoa(g.Intn(9))
 	}
 	if g.Chance(0.6) {
 		v := float64(g.Intn(64)) / 16
-		c.BranchLength = &v
+		c.Len = &v
 	}
 	if g.Chance(0.4) {
 		v := float64(g.Intn(101)) / 100
-		c.Confidence = &v
+		c.Conf = &v
 	}
 	if depth < 5 && g.Chance(0.55-0.08*float64(depth)) {
 		n := 1 + g.Intn(4)
 		for i := 0; i < n; i++ {
-			c.Clades = append(c.Clades, genPxClade(g, depth+1))
+			c.Kids = append(c.Kids, genPxClade(g, depth+1))
 		}
 	}
 	return c
@@ -114,7 +111,7 @@ func xmlFloat(g *core.G, v float64) string {
 
 var xmlNoise = []string{"<!-- a comment -->", "\n  ", "<property ref=\"x\" datatype=\"xsd:string\">v<a/></property>", "<events><speciations>1</speciations></events>", "<color><red>1</red></color>", ""}
 
-func renderPxClade(g *core.G, b *strings.Builder, c *phyloxml.Clade) {
+func renderPxClade(g *core.G, b *strings.Builder, c *pxC) {
 	b.WriteString("<clade")
 	if g.Chance(0.2) {
 		b.WriteString(" id_source=\"x\" branch_length='9'") // attributes are not read
@@ -124,30 +121,30 @@ func renderPxClade(g *core.G, b *strings.Builder, c *phyloxml.Clade) {
 	if c.Name != "" || g.Chance(0.1) {
 		parts = append(parts, "<name>"+xmlText(g, c.Name)+"</name>")
 	}
-	if c.BranchLength != nil {
-		parts = append(parts, "<branch_length>"+xmlFloat(g, *c.BranchLength)+"</branch_length>")
+	if c.Len != nil {
+		parts = append(parts, "<branch_length>"+xmlFloat(g, *c.Len)+"</branch_length>")
 	}
-	if c.Confidence != nil {
-		parts = append(parts, "<confidence type=\"bootstrap\">"+xmlFloat(g, *c.Confidence)+"</confidence>")
+	if c.Conf != nil {
+		parts = append(parts, "<confidence type=\"bootstrap\">"+xmlFloat(g, *c.Conf)+"</confidence>")
 	}
-	if c.Tax.ScientificName != "" || c.Tax.Code != "" || g.Chance(0.1) {
+	if c.Sci != "" || c.Code != "" || g.Chance(0.1) {
 		t := "<taxonomy>"
 		if g.Chance(0.3) {
 			t += "<id provider=\"ncbi\">" + strconv.Itoa(g.Intn(9999)) + "</id>"
 		}
-		if c.Tax.Code != "" {
-			t += "<code>" + xmlText(g, c.Tax.Code) + "</code>"
+		if c.Code != "" {
+			t += "<code>" + xmlText(g, c.Code) + "</code>"
 		}
-		if c.Tax.ScientificName != "" {
-			t += "<scientific_name>" + xmlText(g, c.Tax.ScientificName) + "</scientific_name>"
+		if c.Sci != "" {
+			t += "<scientific_name>" + xmlText(g, c.Sci) + "</scientific_name>"
 		}
 		parts = append(parts, t+"</taxonomy>")
 	}
 	// sub-clades keep their document order among themselves; everything else may sit anywhere
 	var kids []string
-	for i := range c.Clades {
+	for i := range c.Kids {
 		var kb strings.Builder
-		renderPxClade(g, &kb, &c.Clades[i])
+		renderPxClade(g, &kb, c.Kids[i])
 		kids = append(kids, kb.String())
 	}
 	// interleave: random merge of parts (shuffled) and kids (in order)
@@ -166,7 +163,7 @@ func renderPxClade(g *core.G, b *strings.Builder, c *phyloxml.Clade) {
 	b.WriteString("</clade>")
 }
 
-func renderPx(g *core.G, px *phyloxml.PhyloXML) string {
+func renderPx(g *core.G, px *pxD) string {
 	var b strings.Builder
 	if g.Chance(0.5) {
 		b.WriteString("<?xml version=\"1.0\" encoding=\"UTF-8\"?>\n")
@@ -179,13 +176,13 @@ func renderPx(g *core.G, px *phyloxml.PhyloXML) string {
 		b.WriteString(" xmlns:xsi=\"http://www.w3.org/2001/XMLSchema-instance\" xmlns=\"http://www.phyloxml.org\"")
 	}
 	b.WriteString(">")
-	for i := range px.Phylogenies {
+	for i := range px.Phylos {
 		b.WriteString(g.Pick(xmlNoise[:2]))
-		b.WriteString(fmt.Sprintf("<phylogeny rooted=\"%s\">", g.Pick([]string{strconv.FormatBool(px.Phylogenies[i].Rooted), map[bool]string{true: "1", false: "0"}[px.Phylogenies[i].Rooted]})))
+		b.WriteString(fmt.Sprintf("<phylogeny rooted=\"%s\">", g.Pick([]string{strconv.FormatBool(px.Phylos[i].Rooted), map[bool]string{true: "1", false: "0"}[px.Phylos[i].Rooted]})))
 		if g.Chance(0.3) {
 			b.WriteString("<name>tree</name><description>d</description>")
 		}
-		renderPxClade(g, &b, &px.Phylogenies[i].Root)
+		renderPxClade(g, &b, px.Phylos[i].Root)
 		b.WriteString("</phylogeny>")
 	}
 	b.WriteString("</phyloxml>")
@@ -247,8 +244,8 @@ func corruptXML(g *core.G, doc string) (string, string) {
 
 var nsNames = []string{"a", "hCoV-19/France/1", "é", "q\"uote", "back\\slash", "tab\there", "𝔘nicode", "a b"}
 
-func genNs(g *core.G) *nextstrain.Nextstrain {
-	ns := &nextstrain.Nextstrain{Version: "v2"}
+func genNs(g *core.G) *nsD {
+	ns := &nsD{Version: "v2"}
 	if g.Chance(0.07) {
 		ns.Version = g.Pick([]string{"v1", "", "V2"})
 	}
@@ -256,28 +253,28 @@ func genNs(g *core.G) *nextstrain.Nextstrain {
 	return ns
 }
 
-func genNsNode(g *core.G, depth int, div float64) nextstrain.NsNode {
-	n := nextstrain.NsNode{}
+func genNsNode(g *core.G, depth int, div float64) *nsN {
+	n := &nsN{}
 	if g.Chance(0.85) {
 		n.Name = g.Pick(nsNames) + strconv.Itoa(g.Intn(50))
 	}
-	n.Attributes.Divergence = div + float64(g.Intn(64))/16
+	n.Div = div + float64(g.Intn(64))/16
 	if g.Chance(0.3) {
-		n.Attributes.Country.Value = g.Pick([]string{"France", "Costa Rica", "a:b,c"})
+		n.Country = g.Pick([]string{"France", "Costa Rica", "a:b,c"})
 	}
 	if g.Chance(0.3) {
-		n.Attributes.Date.Value = []float64{2020.5, 2019, 1000, 2021.123456789}[g.Intn(4)]
+		n.Date = []float64{2020.5, 2019, 1000, 2021.123456789}[g.Intn(4)]
 	}
 	if g.Chance(0.2) {
-		n.Attributes.Accession = g.Pick([]string{"MN908947", "A B:1"})
+		n.Accession = g.Pick([]string{"MN908947", "A B:1"})
 	}
 	if g.Chance(0.25) {
-		n.BranchAttr.Labels.Aa = g.Pick([]string{"ORF1a: T265I, S: D614G", "N:P13L"})
+		n.Aa = g.Pick([]string{"ORF1a: T265I, S: D614G", "N:P13L"})
 	}
 	if depth < 5 && g.Chance(0.6-0.08*float64(depth)) {
 		k := 1 + g.Intn(4)
 		for i := 0; i < k; i++ {
-			n.Children = append(n.Children, genNsNode(g, depth+1, n.Attributes.Divergence))
+			n.Kids = append(n.Kids, genNsNode(g, depth+1, n.Div))
 		}
 	}
 	return n
@@ -335,22 +332,22 @@ var jsonNoise = []string{`"hidden":false`, `"x":null`, `"vaccine":{"serum":true,
 
 func ws(g *core.G) string { return g.Pick([]string{"", "", " ", "\n  ", "\t"}) }
 
-func renderNsNode(g *core.G, b *strings.Builder, n *nextstrain.NsNode) {
+func renderNsNode(g *core.G, b *strings.Builder, n *nsN) {
 	var fields []string
 	if n.Name != "" || g.Chance(0.3) {
 		fields = append(fields, jsonKey(g, "name")+ws(g)+":"+ws(g)+jsonString(g, n.Name))
 	}
 	{
 		var a []string
-		a = append(a, jsonKey(g, "div")+":"+jsonNum(g, n.Attributes.Divergence))
-		if n.Attributes.Country.Value != "" {
-			a = append(a, jsonKey(g, "country")+":{"+jsonKey(g, "value")+":"+jsonString(g, n.Attributes.Country.Value)+",\"confidence\":{\"France\":0.9}}")
+		a = append(a, jsonKey(g, "div")+":"+jsonNum(g, n.Div))
+		if n.Country != "" {
+			a = append(a, jsonKey(g, "country")+":{"+jsonKey(g, "value")+":"+jsonString(g, n.Country)+",\"confidence\":{\"France\":0.9}}")
 		}
-		if n.Attributes.Date.Value != 0 {
-			a = append(a, jsonKey(g, "num_date")+":{\"value\":"+jsonNum(g, n.Attributes.Date.Value)+",\"confidence\":[2019.1,2021.2]}")
+		if n.Date != 0 {
+			a = append(a, jsonKey(g, "num_date")+":{\"value\":"+jsonNum(g, n.Date)+",\"confidence\":[2019.1,2021.2]}")
 		}
-		if n.Attributes.Accession != "" {
-			a = append(a, jsonKey(g, "accession")+":"+jsonString(g, n.Attributes.Accession))
+		if n.Accession != "" {
+			a = append(a, jsonKey(g, "accession")+":"+jsonString(g, n.Accession))
 		}
 		if g.Chance(0.3) {
 			a = append(a, g.Pick(jsonNoise))
@@ -358,17 +355,17 @@ func renderNsNode(g *core.G, b *strings.Builder, n *nextstrain.NsNode) {
 		g.R.Shuffle(len(a), func(i, j int) { a[i], a[j] = a[j], a[i] })
 		fields = append(fields, jsonKey(g, "node_attrs")+":{"+strings.Join(a, ","+ws(g))+"}")
 	}
-	if n.BranchAttr.Labels.Aa != "" {
-		fields = append(fields, jsonKey(g, "branch_attrs")+":{\"mutations\":{\"nuc\":[\"C241T\"]},\"labels\":{\"aa\":"+jsonString(g, n.BranchAttr.Labels.Aa)+"}}")
+	if n.Aa != "" {
+		fields = append(fields, jsonKey(g, "branch_attrs")+":{\"mutations\":{\"nuc\":[\"C241T\"]},\"labels\":{\"aa\":"+jsonString(g, n.Aa)+"}}")
 	}
-	if len(n.Children) > 0 {
+	if len(n.Kids) > 0 {
 		var kb strings.Builder
 		kb.WriteString(jsonKey(g, "children") + ":" + ws(g) + "[")
-		for i := range n.Children {
+		for i := range n.Kids {
 			if i > 0 {
 				kb.WriteString("," + ws(g))
 			}
-			renderNsNode(g, &kb, &n.Children[i])
+			renderNsNode(g, &kb, n.Kids[i])
 		}
 		kb.WriteString("]")
 		fields = append(fields, kb.String())
@@ -382,9 +379,9 @@ func renderNsNode(g *core.G, b *strings.Builder, n *nextstrain.NsNode) {
 	b.WriteString("{" + ws(g) + strings.Join(fields, ","+ws(g)) + ws(g) + "}")
 }
 
-func renderNs(g *core.G, ns *nextstrain.Nextstrain) string {
+func renderNs(g *core.G, ns *nsD) string {
 	var tb strings.Builder
-	renderNsNode(g, &tb, &ns.Tree)
+	renderNsNode(g, &tb, ns.Tree)
 	fields := []string{jsonKey(g, "version") + ":" + jsonString(g, ns.Version), jsonKey(g, "tree") + ":" + tb.String()}
 	if g.Chance(0.5) {
 		fields = append(fields, "\"meta\":{\"title\":\"t\",\"panels\":[\"tree\"],\"updated\":\"2020-01-01\"}")
@@ -466,9 +463,7 @@ func genDec(g *core.G, format string) request {
 }
 
 // renderNsPlainName: a minimal rendering whose name holds the raw byte 0xFF.
-func renderNsPlainName(ns *nextstrain.Nextstrain) string {
-	ns.Tree.Children = nil
-	ns.Tree.Attributes = nextstrain.NsNodeAttributes{}
-	ns.Tree.BranchAttr = nextstrain.NSBranchAttributes{}
+func renderNsPlainName(ns *nsD) string {
+	ns.Tree = &nsN{Name: ns.Tree.Name}
 	return "{\"version\":\"" + ns.Version + "\",\"tree\":{\"name\":\"bad\xffbyte\"}}"
 }
